@@ -29,7 +29,7 @@ def prop(pid, rules, explanation, minimum=None, assumptions=None):
 
 prop('C01',
      [T.rule_lookup_shape, T.rule_chain, T.rule_total_ber, T.rule_pair_ber, T.rule_fragment_tag_ber, A.rule_a7_unit,
-      A.rule_a8_pairing, W.rule_encode_header, W.rule_decode_header, A.rule_c04_default, E.rule_option_latch, A.rule_a6_spec, Z.rule_encode_tag_arms, Z.rule_bits_prepend, Z.rule_option_scope, A.rule_a6_optdef, Z.rule_encode_contents, Z.rule_real_format, Z.rule_integer_octets, A.rule_c13, R.rule_real_base, R.rule_real_exponent, R3.rule_sized_length, R3.rule_segment_spec, R.rule_real_base10_exact, Z.rule_cache_key, R4.rule_item_option],
+      A.rule_a8_pairing, W.rule_encode_header, W.rule_decode_header, A.rule_c04_default, E.rule_option_latch, A.rule_a6_spec, Z.rule_encode_tag_arms, Z.rule_bits_prepend, Z.rule_option_scope, A.rule_a6_optdef, Z.rule_encode_contents, Z.rule_real_format, Z.rule_integer_octets, A.rule_c13, R.rule_real_base, R.rule_real_exponent, R3.rule_sized_length, R3.rule_segment_spec, R.rule_real_base10_exact, Z.rule_cache_key, R4.rule_item_option, R4.rule_eoo_probe_boundary],
      'Static necessary conditions of the BER round trip: every type class has an encoder by type and a decoder by type; '
      'writer and reader of each type belong to the same codec family; string segments are tagged by the writer as the '
      'reader demands and as X.690 8.23.6 says; chunks are slices of the measured octets; end-of-octets is appended iff '
@@ -37,24 +37,24 @@ prop('C01',
      'prescribes on both sides; OPTIONAL/DEFAULT skips precede component encoding.  Content-octet arithmetic and value '
      'equality are not decided.',
      {'A1.total': 60, 'A1.pair': 80, 'A7.tag': 30, 'A1.chain': 12, 'A1.lookup': 5, 'A7.unit': 3, 'A8.pair': 20,
-      'W.enc': 8, 'W.dec': 10, 'C04.default': 4, 'W.realbase': 2, 'W.realexp': 3, 'W.sized': 6, 'W.segtag': 2, 'W.real10': 3, 'A5.itemopt': 2})
+      'W.enc': 8, 'W.dec': 10, 'C04.default': 4, 'W.realbase': 2, 'W.realexp': 3, 'W.sized': 6, 'W.segtag': 2, 'W.real10': 3, 'A5.itemopt': 2, 'A8.probe': 9})
 
 prop('C02',
      [T.rule_chain, T.rule_derived, T.rule_total_canon, T.rule_pair_canon, T.rule_modes, T.rule_keykind,
-      T.rule_fragment_tag_canon, A.rule_a7_unit, A.rule_a8_pairing, E.rule_option_latch, A.rule_c04_default, A.rule_a6_spec, Z.rule_real_normalisation, A.rule_a6_optdef, Z.rule_integer_octets, Z.rule_bits_prepend, M.rule_a9_setof, R.rule_real_exponent, R.rule_cer_real_base, R3.rule_sized_length, R3.rule_segment_spec, R4.rule_item_option],
+      T.rule_fragment_tag_canon, A.rule_a7_unit, A.rule_a8_pairing, E.rule_option_latch, A.rule_c04_default, A.rule_a6_spec, Z.rule_real_normalisation, A.rule_a6_optdef, Z.rule_integer_octets, Z.rule_bits_prepend, M.rule_a9_setof, R.rule_real_exponent, R.rule_cer_real_base, R3.rule_sized_length, R3.rule_segment_spec, R4.rule_item_option, R4.rule_segment_handover, R4.rule_eoo_probe_boundary],
      'CER/DER tables are derived from and total w.r.t. BER, fixed encoder modes match X.690 9/10 and override caller '
      'options, codec families pair up, string segments agree between the CER writer and every reader, end-of-octets '
      'pairs with the indefinite header.  Equality of decoded values is not decided.',
-     {'A1.total': 120, 'A1.pair': 150, 'A1.modes': 8, 'A1.derived': 8, 'A7.tag': 60, 'A8.pair': 20, 'W.realexp': 3, 'A1.cerreal': 2, 'W.sized': 6, 'W.segtag': 2, 'A5.itemopt': 2})
+     {'A1.total': 120, 'A1.pair': 150, 'A1.modes': 8, 'A1.derived': 8, 'A7.tag': 60, 'A8.pair': 20, 'W.realexp': 3, 'A1.cerreal': 2, 'W.sized': 6, 'W.segtag': 2, 'A5.itemopt': 2, 'W.segspec': 3, 'A8.probe': 9})
 
 prop('C03',
      [T.rule_x680, T.rule_modes, T.rule_canonical_sort_registered, M.rule_a9_set, M.rule_a9_setof, W.rule_encode_header,
-      A.rule_a8_pairing, A.rule_c13, E.rule_option_latch, Z.rule_encode_tag_arms, Z.rule_real_normalisation, M.rule_a9_dynamic, Z.rule_encode_contents, Z.rule_real_format, Z.rule_integer_octets, R.rule_real_exponent, R.rule_cer_real_base, R4.rule_bit_segments],
+      A.rule_a8_pairing, A.rule_c13, E.rule_option_latch, Z.rule_encode_tag_arms, Z.rule_real_normalisation, M.rule_a9_dynamic, Z.rule_encode_contents, Z.rule_real_format, Z.rule_integer_octets, R.rule_real_exponent, R.rule_cer_real_base, R4.rule_bit_segments, R4.rule_segment_handover],
      'Compared with an independent X.680/X.690 table: universal tag numbers, class/format constants, end-of-octets '
      'octets, canonical encoder modes, TRUE = FF, identifier/length octet thresholds of the encoder, SET members '
      'ordered by the outermost tag, SET OF members sorted as zero-padded octet strings, end-of-octets iff indefinite '
      'header.  Byte identity with a reference encoder is not decided.',
-     {'A1.x680': 35, 'A1.modes': 8, 'A9.reg': 4, 'A9.set': 4, 'A9.setof': 1, 'W.enc': 8, 'W.realexp': 3, 'A1.cerreal': 2, 'A7.bitseg': 3})
+     {'A1.x680': 35, 'A1.modes': 8, 'A9.reg': 4, 'A9.set': 4, 'A9.setof': 1, 'W.enc': 8, 'W.realexp': 3, 'A1.cerreal': 2, 'A7.bitseg': 3, 'W.segspec': 3})
 
 prop('C04',
      [T.rule_canonical_sort_registered, M.rule_a9_set, M.rule_a9_setof, A.rule_c04_default, A.rule_c04_clone,
@@ -99,11 +99,11 @@ prop('C08',
       'W.content': 15, 'A2.probe': 1, 'W.real10': 3})
 
 prop('C09',
-     [T.rule_ber_lax, T.rule_fragment_tag_ber, A.rule_a7_nested, A.rule_a6_spec, W.rule_decode_header, Z.rule_bits_prepend, Z.rule_constructed_yields, A.rule_a6_optdef, Z.rule_real_format, R3.rule_sized_length, R3.rule_method_identity, R3.rule_table_alias, R3.rule_eoo_identity],
+     [T.rule_ber_lax, T.rule_fragment_tag_ber, A.rule_a7_nested, A.rule_a6_spec, W.rule_decode_header, Z.rule_bits_prepend, Z.rule_constructed_yields, A.rule_a6_optdef, Z.rule_real_format, R3.rule_sized_length, R3.rule_method_identity, R3.rule_table_alias, R3.rule_eoo_identity, R4.rule_eoo_probe_boundary],
      'BER decoder stays lax where X.690 allows choice: any non-zero TRUE, constructed strings with OCTET STRING '
      'segments (nested too), indefinite lengths, long-form lengths with leading zeros, SET members looked up by tag in '
      'any position in both length forms (sibling agreement of the record loops).  Length arithmetic is not decided.',
-     {'A1.lax': 35, 'A7.tag': 30, 'A7.nested': 4, 'A6.spec': 3, 'W.dec': 10, 'W.sized': 6, 'A5.methid': 2, 'A1.alias': 12, 'A8.eooid': 8})
+     {'A1.lax': 35, 'A7.tag': 30, 'A7.nested': 4, 'A6.spec': 3, 'W.dec': 10, 'W.sized': 6, 'A5.methid': 2, 'A1.alias': 12, 'A8.eooid': 8, 'A8.probe': 9})
 
 prop('C10', [A.rule_c10, A.rule_a6_spec, X.rule_nonevalue, A.rule_c14, Z.rule_choice_result, A.rule_a6_optdef, Z.rule_constraint_denotation, Z.rule_bits_padding, R3.rule_container_cleared],
      'Spec-guided exits of the constructed decoders: required components present; constraints (isInconsistent) checked '
@@ -149,11 +149,11 @@ prop('C16', [T.rule_total_bytag, X.rule_nonevalue, T.rule_pair_ber, Z.rule_schem
      'None/placeholder/raw octets reach a result yield.  Leaf equality and re-encode identity are not decided.',
      {'A1.total': 80, 'A13.value': 20, 'A1.proto': 60, 'A1.enctype': 60, 'A8.eooid': 8})
 
-prop('C17', [T.rule_total_native, A.rule_c17_contra, A.rule_a6_record_arms, A.rule_c04_default, Z.rule_native_record, M.rule_a9_dynamic, R.rule_omissions, R.rule_as_binary, R3.rule_native_scalar_value],
+prop('C17', [T.rule_total_native, A.rule_c17_contra, A.rule_a6_record_arms, A.rule_c04_default, Z.rule_native_record, M.rule_a9_dynamic, R.rule_omissions, R.rule_as_binary, R3.rule_native_scalar_value, R4.rule_segment_handover],
      'Native tables total over all types; in the python-value arms the OPTIONAL-absent skip is satisfiable and precedes '
      'the raising lookup; value arm and python arm take the same OPTIONAL/DEFAULT/open-type actions.  Native round trip '
      'of values is not decided.',
-     {'A1.total': 55, 'A4.contra': 4, 'A6.arms': 2, 'A6.omit': 8, 'W.binstr': 2})
+     {'A1.total': 55, 'A4.contra': 4, 'A6.arms': 2, 'A6.omit': 8, 'W.binstr': 2, 'W.segspec': 3})
 
 prop('C18', [A.rule_a8_dec, X.rule_nonevalue, T.rule_pair_ber, Z.rule_any_capture_yields, Z.rule_option_scope, A.rule_a6_open, R.rule_opentype_map_ref, R3.rule_opentype_truthy, R3.rule_open_skips, R3.rule_open_types_flag],
      'Raw capture of an indefinite-length TLV is complete (header re-read <=> end-of-octets appended); raw octets are '
